@@ -6,7 +6,7 @@ Import ListNotations.
 Open Scope string_scope.
 
 Definition rerrk (k : errkind) : rdr :=
-  rquoted (match k with TypeErr => "TypeError" | ValueErr => "ValueError" end).
+  rquoted (match k with TypeErr => "TypeError" | ValueErr => "ValueError" | ExcErr => "Exception" end).
 
 Definition routcome (o : outcome) : rdr :=
   match o with
